@@ -100,13 +100,22 @@ def exp_yd(n, info):
     return "%04d-%03d" % (y2, min(yd, 366 if R.is_leap(y2) else 365))
 
 
-EXP = {"ymd": exp_ymd, "ymcw": exp_ymcw, "bizda": exp_bizda, "ywd": exp_ywd, "yd": exp_yd, "ymcw0": exp_ymcw}
+def exp_epoch(n, info):
+    """a day given as seconds since the epoch steps like the same day written as ymd"""
+    t = exp_ymd(n, info)
+    return None if t is None else "%d" % R.epoch(_n_of_text("ymd", t))
+
+
+EXP = {"ymd": exp_ymd, "ymcw": exp_ymcw, "bizda": exp_bizda, "ywd": exp_ywd, "yd": exp_yd, "ymcw0": exp_ymcw,
+       "epoch": exp_epoch}
 
 
 def _n_of_text(rep, t):
     """day number of a reference text in representation rep"""
     if rep == "ymd":
         return R.n_of(int(t[:4]), int(t[5:7]), int(t[8:10]))
+    if rep == "epoch":
+        return int(t) // 86400 + R.UNIX0
     if rep in ("ymcw", "ymcw0"):
         return R.n_of_ymcw(int(t[:4]), int(t[5:7]), int(t[8:10]), int(t[11:13]))
     if rep == "bizda":
@@ -144,7 +153,7 @@ def exp_other_cal(rep, outrep):
 
 def _nt(rep):
     def f(n, info):
-        if rep == "ymd":
+        if rep in ("ymd", "epoch"):
             return R.ymd(n)[2] >= 29
         if rep in ("ymcw", "ymcw0"):
             return R.ymcw(n)[2] == 5
@@ -230,6 +239,9 @@ def months(ctx, shard, nshards):
     for rep in ("ymd", "ymcw", "bizda"):
         A.sweep(ctx, sub, V, rep, durs_m + durs_y + comp_m + comp_y, days, EXP[rep], _tag(rep), _nt(rep))
         A.sweep(ctx, sub, V, rep, then_m + then_y, days, exp_then_days(rep), _tag(rep), _nt(rep))
+    # days given as seconds since the epoch: a share of the steps per shard
+    A.sweep(ctx, sub, V, "epoch", (durs_m + durs_y + comp_m)[shard % 4::4], days, exp_epoch, _tag("epoch"), _nt("epoch"))
+    A.sweep(ctx, sub, V, "epoch", then_m[shard % 2::2], days, exp_then_days("epoch"), _tag("epoch"), _nt("epoch"))
     for rep in ("ywd", "yd"):
         A.sweep(ctx, sub, V, rep, durs_y + comp_y, days, EXP[rep], _tag(rep), _nt(rep))
         A.sweep(ctx, sub, V, rep, then_y, days, exp_then_days(rep), _tag(rep), _nt(rep))
